@@ -6,7 +6,7 @@ pub const U: f64 = 1.1102230246251565e-16; // 2^-53
 /// Absolute error allowed on a position-like quantity of a well conditioned vertex: the
 /// library computes in global coordinates, so the error is governed by the coordinate scale L.
 pub fn eps_pos(c: &Case) -> f64 {
-    4096. * U * c.scale_l()
+    16384. * U * c.scale_l()
 }
 
 /// Volume tolerance given the reference surface area and volume and the conditioning of the
@@ -45,3 +45,11 @@ pub fn snap_theta(c: &Case, s: f64) -> f64 {
         1.
     }
 }
+
+/// A vertex (and with it the faces it bounds) is called ill-conditioned when the normals of its
+/// three planes are coplanar up to 1e-6: its location is then not determined "up to rounding"
+/// (degenerate edge-in-plane ties leave such vertices at an arbitrary point of a line). Vertex
+/// positions and the areas / centroids of faces of cells with such a vertex are listed as a
+/// known finding (known_findings.txt, "ill-conditioned"); volumes and centroids of cells are
+/// compared regardless.
+pub const KAPPA_WELL: f64 = 1e6;
